@@ -41,6 +41,7 @@ type Obl struct {
 	Goal   *T
 	NFacts int
 	Func   string
+	FuncKey string
 	// filled by solver
 	Result  string
 	Backend string
